@@ -59,8 +59,14 @@ class Checker:
             if t[0] == 'field' and t[1][0] == 'hof':
                 t = t[1][2]
                 continue
+            if t[0] == 'field' and t[2] == 0 and t[1][0] == 'call' and t[1][1].endswith('Try>::branch') and t[1][2]:
+                t = t[1][2][0]          # `x?`: the Continue payload is the Ok / Some payload of x
+                continue
             if t[0] == 'payload':
                 t = t[1]
+                continue
+            if t[0] == 'call' and t[1].endswith('Try>::branch') and t[2]:
+                t = t[2][0]             # (text_root already stripped the `.0` of the Continue payload)
                 continue
             if t[0] == 'hof' and t[1] in ('map_err',):
                 t = t[2]
@@ -141,6 +147,8 @@ class Checker:
                 return 0
             problems.append('builds an Ok(..) that does not come from the validating constructor')
             return 0
+        if k == 'call' and t[1].endswith('::from_residual'):
+            return 0          # `?` on an Err: produces an Err only, never the Ok value
         if k == 'call':
             if t[1] in self.ctx.checked_ctors:
                 owner = t[1].rsplit('::', 1)[0]
